@@ -14,6 +14,7 @@ import ParryModel.C09.Theorems17
 import ParryModel.C09.Theorems18
 import ParryModel.C09.Theorems19
 import ParryModel.C09.Theorems20
+import ParryModel.C09.Theorems21
 /-!
 # C09 property theorems (index).
 * `Theorems1` — interval enclosures (`+ - neg *`, enclose, intersect), box algebra, `scaled`, `transform_by`, composites
@@ -36,5 +37,6 @@ import ParryModel.C09.Theorems20
 * `Theorems17` — parry2d: `compute_aabb` / `compute_bounding_sphere` / `compute_swept_aabb` contain the posed shape for every 2-D convex kind
 * `Theorems18` — `find_root_intervals_to` = caller's results ++ `find_root_intervals` (any scalar type); cover transfers
 * `Theorems19` — `Aabb::scaled_wrt_center`, `Aabb::take_point`, the HeightField box is exact (every face carries a vertex)
-* `Theorems20` — parry2d: `Aabb::transform_by` contains / exact, Cuboid / Ball / Capsule / Triangle boxes tight
+* `Theorems20` — parry2d: `Aabb::transform_by` contains / exact, Cuboid / Ball / Capsule / Triangle boxes tight, `Aabb::scaled` and histories in 2-D, ConvexPolygon box exact
+* `Theorems21` — parry2d composites: TriMesh / Polyline / Compound root boxes contain every part
 -/
